@@ -69,6 +69,11 @@ func (d dissecting) Dissect(b *bufio.Reader, reader api.TcpReader) error {
 			// We must read until we see an EOF... very important!
 			return err
 		}
+		if _, isProtocolError := err.(*Error); err != nil && !isProtocolError {
+			// The reader failed (or the stream ended inside a frame): there is
+			// nothing more to read.  Only protocol errors are skipped.
+			return err
+		}
 
 		switch f := frameVal.(type) {
 		case *HeartbeatFrame:
